@@ -88,6 +88,26 @@ def search(seed=0, trials=40, tol=1e-9):
         cmp("build_laplacian[covariant_free]", ops.build_laplacian(mesh, link_exponents=A)[0], LA, {})
         cmp("build_laplacian[covariant_pinned]", ops.build_laplacian(mesh, link_exponents=A, fixed_sites=fixed)[0],
             dense_specs(mesh, A, fixed)[2], dict(fixed=fixed.tolist()))
+        if t < 6:
+            from tdgl.solver.options import SparseSolver
+            for solver in (SparseSolver.SUPERLU, SparseSolver.PARDISO, SparseSolver.UMFPACK):
+                try:
+                    mo = MeshOperators(mesh, solver, fixed_sites=None, fix_psi=False)
+                    mo.build_operators()
+                except Exception:       # optional back end not installed: the branch cannot run here
+                    continue
+                Ds, Gs0, Ls0, Bs = dense_specs(mesh)
+                cmp(f"build_operators.mu_laplacian[{solver.name}]", mo.mu_laplacian, Ls0, {})
+                cmp(f"build_operators.mu_gradient[{solver.name}]", mo.mu_gradient, Gs0, {})
+                cmp(f"build_operators.divergence[{solver.name}]", mo.divergence, Ds, {})
+                cmp(f"build_operators.mu_boundary_laplacian[{solver.name}]", mo.mu_boundary_laplacian, Bs, {})
+                if mo.mu_laplacian_lu is not None:
+                    rhs = Ls0.real @ rng.normal(size=N)
+                    x = mo.mu_laplacian_lu(rhs)
+                    n_cmp += 1
+                    res = np.abs(Ls0.real @ x - rhs).max() / (1 + np.abs(rhs).max())
+                    if not res < 1e-6:
+                        bad.append(dict(what=f"build_operators.factorisation_solves_the_scalar_laplacian[{solver.name}]", trial=t, residual=float(res)))
         for fix_psi in (True, False):
             mo = MeshOperators(mesh, None, fixed_sites=fixed, fix_psi=fix_psi)
             seq = []
